@@ -2744,7 +2744,9 @@ static int jdf_generate_dataflow( const jdf_t *jdf, const jdf_function_entry_t* 
     } else {
         int deps_in = 0;
         for(dl = flow->deps; NULL != dl; dl = dl->next) {
-            deps_in += !!(dl->dep_flags & JDF_DEP_FLOW_IN);
+            /* A ternary guard generates two runtime dependencies (iftrue and iffalse) */
+            if( dl->dep_flags & JDF_DEP_FLOW_IN )
+                deps_in += (JDF_GUARD_TERNARY == dl->guard->guard_type) ? 2 : 1;
         }
         string_arena_add_string(sa,
                                 "#if MAX_DEP_IN_COUNT < %d  /* number of input dependencies */\n"
@@ -2757,7 +2759,9 @@ static int jdf_generate_dataflow( const jdf_t *jdf, const jdf_function_entry_t* 
     } else {
         int deps_out = 0;
         for(dl = flow->deps; NULL != dl; dl = dl->next) {
-            deps_out += !!(dl->dep_flags & JDF_DEP_FLOW_OUT);
+            /* A ternary guard generates two runtime dependencies (iftrue and iffalse) */
+            if( dl->dep_flags & JDF_DEP_FLOW_OUT )
+                deps_out += (JDF_GUARD_TERNARY == dl->guard->guard_type) ? 2 : 1;
         }
         string_arena_add_string(sa,
                                 "#if MAX_DEP_OUT_COUNT < %d  /* number of output dependencies */\n"
